@@ -730,3 +730,34 @@ func ruleReduceKPresent(c *Ctx, r *R) {
 		r.undecided("unresolved:reduce", "-", "UNRESOLVED: builtinArrayReduce / builtinArrayReduceRight")
 	}
 }
+
+func init() {
+	register(&Rule{ID: "SIB-bound", Props: []string{"C14", "C01"}, Min: 3,
+		Doc: "T (sibling agreement): a function object made by Function.prototype.bind has its own [[Call]] (15.3.4.5.1), [[Construct]] (15.3.4.5.2) and [[HasInstance]] (15.3.4.5.3), each delegating to the target function. The three methods of *object that implement these internal methods for every function object - the ones that dispatch on the function payload - each have a case for the bound-function payload; one that lacks it treats a bound function like an ordinary one (`new C instanceof C.bind(null)` is false)",
+		Run: ruleSibBound})
+}
+
+func ruleSibBound(c *Ctx, r *R) {
+	want := map[string]string{"call": "[[Call]]", "construct": "[[Construct]]", "hasInstance": "[[HasInstance]]"}
+	n := 0
+	for _, fn := range c.AllSrcFuncs("") {
+		role, ok := want[fn.Name()]
+		if !ok || fn.Signature.Recv() == nil || !typeIs(fn.Signature.Recv().Type(), ottoPath, "object") {
+			continue
+		}
+		n++
+		has := false
+		for _, b := range fn.Blocks {
+			for _, ins := range b.Instrs {
+				if ta, ok := ins.(*ssa.TypeAssert); ok && typeIs(ta.AssertedType, ottoPath, "bindFunctionObject") {
+					has = true
+				}
+			}
+		}
+		r.check(has, "(*object)."+fn.Name(), c.Pos(fn.Pos()), role+" has a case for the bound-function payload",
+			fmt.Sprintf("(*object).%s implements %s for every function object but has no case for bindFunctionObject, although its siblings do: a bound function is treated like an ordinary function (for [[HasInstance]]: `function C(){}; new C instanceof C.bind(null)` is false, ES5 15.3.4.5.3 delegates to the target)", fn.Name(), role))
+	}
+	if n < 3 {
+		r.undecided("unresolved:methods", "-", fmt.Sprintf("UNRESOLVED: %d of (*object).call / construct / hasInstance found", n))
+	}
+}
